@@ -169,7 +169,7 @@ func sequences[V any](r *engine.Rec, tc typeCfg[V]) {
 	sizes := []int{0, 1, 2, 3, 5, 15, 16, 17, 20}
 	if r.Tier == "thorough" {
 		sizes = nil
-		for i := 0; i <= 20; i++ {
+		for i := 0; i <= 40; i++ {
 			sizes = append(sizes, i)
 		}
 	}
@@ -279,7 +279,7 @@ func associative[K comparable](r *engine.Rec, tname string, keys []K) {
 	sizes := []int{0, 1, 2, 3, 17, 20}
 	if r.Tier == "thorough" {
 		sizes = nil
-		for i := 0; i <= 20; i++ {
+		for i := 0; i <= 40; i++ {
 			sizes = append(sizes, i)
 		}
 	}
@@ -431,7 +431,7 @@ func eachV[K comparable](r *engine.Rec, kname string, k K) {
 }
 
 func gen[V any](f func(i int) V) []V {
-	out := make([]V, 20)
+	out := make([]V, 41)
 	for i := range out {
 		out[i] = f(i)
 	}
